@@ -2,7 +2,7 @@
 EXTENDS Pager
 MCFamilies == {"query", "path", "file"}
 MCSeps     == {"space", "bar", "none"}
-MCWraps    == {"div", "ulli", "span", "td"}
+MCWraps    == {"div", "ulli", "span", "td", "indent"}
 MCDecos    == {"span", "strong", "b", "em", "plain", "bracket"}
 MCLabels   == {"none", "nextprev", "nextprevious", "raquo", "onlynext"}
 MCHrefs    == {"rel", "abs", "absupper", "ftp", "offsite", "lookprefix", "looksuffix", "js", "mailto", "empty", "hash", "malformed", "schemerel", "relnodigit"}
